@@ -46,6 +46,28 @@ class EffectMixin:
             return eff["new"], TEffect(resolve(env[v.func.id][1]).name, eff["lean"])
         return None
 
+    def effect_ctor_stmt(self, v, target, env, nxt):
+        """`B = BipartiteGraph(L, R)` where the class is an effect object in this function"""
+        name = v.func.id
+        eff = self.reg.effects[name]
+        ctor = eff["ctor"]
+        if v.keywords or len(v.args) != len(ctor["params"]):
+            raise Unsupported("constructor form " + src(v))
+        et = TEffect(name, eff["lean"])
+
+        def fin(vs):
+            code = " ".join([ctor["lean"]] + [paren(coerce(c, t, pt)) for (c, t), pt in zip(vs, ctor["params"])])
+
+            def after(r, _t):
+                env2 = dict(env)
+                env2[target.id] = (r, et)
+                return nxt(env2)
+            if ctor.get("raises"):
+                return self.bind(code, et, after, self.lname(target.id))
+            nm = self.lname(target.id)
+            return "let {} := {}\n{}".format(nm, code, after(nm, None))
+        return self.exprs(list(v.args), env, fin)
+
     def effect_stmt(self, v, target, env, nxt):
         """`recv.m(args)` (statement) or `target = recv.m(args)`"""
         key, name = self.effect_call_parts(v, env)
